@@ -77,9 +77,9 @@ func (r *sm) next() uint64 {
 func digest(r g9cl.Result) (kind, d string) {
 	var b strings.Builder
 	switch {
-	case r.Panic != "":
+	case r.Panic != "" || r.ParserPanic != "" || r.WritePanic != "":
 		kind = "panic"
-		b.WriteString("PANIC " + r.Panic)
+		b.WriteString("PANIC " + r.Panic + r.ParserPanic + r.WritePanic)
 	case r.ParseErr != "":
 		kind = "parse"
 		b.WriteString("PARSE " + r.ParseErr)
